@@ -121,6 +121,11 @@ func (o sop) script() string {
 		return fmt.Sprintf("set_tag(%s)", o.K)
 	case "set_tag_from":
 		return fmt.Sprintf("set_tag(%s, %s)", o.K, o.K2)
+	case "set_tag_unconv":
+		if o.T == "attr" {
+			return fmt.Sprintf("set_tag(%s, some.attr)", o.K)
+		}
+		return fmt.Sprintf("zzbig = 1e308 * 10.0\nzzl = [zzbig]\nset_tag(%s, zzl)", o.K)
 	case "drop_key":
 		return fmt.Sprintf("drop_key(%s)", o.K)
 	case "rename":
